@@ -24,10 +24,11 @@ def encV : V → String
   | .det kv => "d:(" ++ ",".intercalate ((kv.map fun (k, v) => encChars k ++ "=" ++ (match v with | some x => encChars x | none => "~")).toArray.qsort (· < ·)).toList ++ ")"
 
 def encD (d : D) : String :=
-  let deref (v : V) : V := match v with
-    | .ref i => (match listOf d (S "authors") with | some items => .det (items.getD i []) | none => .det [])
+  -- `X_detail = .ref i` is the same object as `Xs[i]`
+  let deref (k : Str) (v : V) : V := match v with
+    | .ref i => (match listOf d ((k.take (k.length - 7)) ++ ['s']) with | some items => .det (items.getD i []) | none => .det [])
     | v => v
-  "{" ++ ";".intercalate ((d.map fun (k, v) => encChars k ++ "=" ++ encV (deref v)).toArray.qsort (· < ·)).toList ++ "}"
+  "{" ++ ";".intercalate ((d.map fun (k, v) => encChars k ++ "=" ++ encV (deref k v)).toArray.qsort (· < ·)).toList ++ "}"
 
 def encState (s : MSt) : String :=
   s!"{s.c.depth} {s.stack.length} {if s.c.inentry then 1 else 0} {s.c.entries.length} {enc s.c.base.baseuri} {encOpt s.c.base.lang} {if s.c.incontent then 1 else 0}"
